@@ -19,7 +19,7 @@ def OffSurfaces (l : List (Sense × Surface ℝ)) (p : Vec3 ℝ) : Prop :=
   ∀ q ∈ l, q.2.quadric p ≠ 0
 
 /-- translate every emitted surface -/
-def translateEmit (t : Vec3 ℝ) (l : List (Sense × Surface ℝ)) : List (Sense × Surface ℝ) :=
+noncomputable def translateEmit (t : Vec3 ℝ) (l : List (Sense × Surface ℝ)) : List (Sense × Surface ℝ) :=
   l.map fun q => (q.1, q.2.translate t)
 
 theorem literalHolds_iff (sense : Sense) (s : Surface ℝ) (p : Vec3 ℝ) (hoff : s.quadric p ≠ 0) :
@@ -30,10 +30,10 @@ theorem literalHolds_iff (sense : Sense) (s : Surface ℝ) (p : Vec3 ℝ) (hoff 
     simp only [reduceCtorEq, iff_true, iff_false, not_lt, Bool.false_eq_true, false_iff, true_iff,
       not_le]
   · exact h1.mp hcs
-  · exact not_le.mpr (h1.mp hcs)
+  · exact h1.mp hcs
   · exact absurd (h2.mp hcs) hoff
   · exact absurd (h2.mp hcs) hoff
-  · exact not_lt.mpr (le_of_lt (h3.mp hcs))
+  · exact le_of_lt (h3.mp hcs)
   · exact le_of_lt (h3.mp hcs)
 
 /-- the executable evaluation of the emitted literals (through every surface's real
@@ -104,7 +104,7 @@ theorem fmod4_lt (fuel : ℕ) (x : ℝ) (hx : x < 4 * ((fuel : ℝ) + 1)) : fmod
 /-! ### boolean objects -/
 
 /-- the inverse of the accumulated daughter-to-parent translation -/
-def downBy (tra : Option (Vec3 ℝ)) (p : Vec3 ℝ) : Vec3 ℝ :=
+noncomputable def downBy (tra : Option (Vec3 ℝ)) (p : Vec3 ℝ) : Vec3 ℝ :=
   match tra with
   | none => p
   | some t => translateDown t p
@@ -126,12 +126,13 @@ theorem sound_neg (tol : Tol ℝ) (tra : Option (Vec3 ℝ)) (o : Obj ℝ) (p : V
 theorem sound_translated (tol : Tol ℝ) (tra : Option (Vec3 ℝ)) (t : Vec3 ℝ) (o : Obj ℝ) (p : Vec3 ℝ)
     (h : Sound tol (some (match tra with | none => t | some u => Vec3.add t u)) o p) :
     Sound tol tra (.translated t o) p := by
-  unfold Sound at *
-  simp only [Obj.eval, Obj.mem]
-  rw [h]
   cases tra with
-  | none => rfl
-  | some u => simp only [downBy]; rw [translateDown_add]
+  | none =>
+    simp only [Sound, Obj.eval, Obj.mem, downBy] at h ⊢
+    exact h
+  | some u =>
+    simp only [Sound, Obj.eval, Obj.mem, downBy] at h ⊢
+    rw [h, translateDown_add]
 
 theorem evalAll_eq (tol : Tol ℝ) (tra : Option (Vec3 ℝ)) (os : List (Obj ℝ)) (p : Vec3 ℝ)
     (h : ∀ o ∈ os, Sound tol tra o p) :
